@@ -30,7 +30,8 @@ type c06Case struct {
 	VolNames []string      `json:"volnames,omitempty"` // middle parts of the volume names
 	Foreign  int           `json:"foreign"`            // position of a foreign-set packet in index and volumes (-1 none)
 	Unknown  int           `json:"unknown"`            // position of an unknown-type packet (-1 none)
-	UnkBody  int           `json:"unkbody,omitempty"`  // body of the unknown-type packet: 0 = 8 bytes, 1 = empty (packet length exactly 64), 2 = 1 KiB; 3 = empty body AND foreign set id
+	UnkType  int           `json:"unktype,omitempty"`  // type of the unknown packet: 0 "PAR 2.0\0Xyzzy"; 1.. types that are NOT the standard ones but resemble them: another prefix before a standard suffix (NewsPostRecvSlic, NewsPostMain, NewsPostFileDesc, NewsPostIFSC), lower case, truncated, another version digit, and the optional UniFileN / CommASCI
+	UnkBody  int           `json:"unkbody,omitempty"`  // body of the unknown-type packet: 0 = 8 bytes, 1 = empty (packet length exactly 64), 2 = 1 KiB; 3 = empty body AND foreign set id; 4 = shaped like a recovery packet body (exponent 7 + one slice of bytes)
 	VolCore  int           `json:"volcore"`            // 0 full core packets, 1 creator only, 2 creator+main, 3 core packets after the recovery packets
 	Subdir   bool          `json:"subdir,omitempty"`   // protected files live in sub-directories
 	LongName int           `json:"longname,omitempty"` // protected file 1 lives N directories deep (40-byte components): the stored relative name exceeds 255 bytes for N>=7
@@ -150,6 +151,14 @@ func c06Alternatives(allPerms bool) []func(*c06Case) {
 		for _, pos := range []int{1, 3, 6} {
 			ub, pos := ub, pos
 			alts = append(alts, func(c *c06Case) { c.Unknown = pos; c.UnkBody = ub })
+		}
+	}
+	for ut := 1; ut <= 9; ut++ {
+		for _, ub := range []int{0, 4} {
+			for _, pos := range []int{1, 6} {
+				ut, ub, pos := ut, ub, pos
+				alts = append(alts, func(c *c06Case) { c.Unknown, c.UnkType, c.UnkBody = pos, ut, ub })
+			}
 		}
 	}
 	for _, vc := range []int{1, 2, 3} {
@@ -334,7 +343,13 @@ func c06Run(ci interface{}, r *core.Rec) {
 		unkBody = nil
 		unkSet = other.SetID
 	}
-	unknownPkt := rpar2.Packet(unkSet, [16]byte{'P', 'A', 'R', ' ', '2', '.', '0', 0, 'X', 'y', 'z', 'z', 'y'}, unkBody)
+	if c.UnkBody == 4 {
+		unkBody = append([]byte{7, 0, 0, 0}, bytes.Repeat([]byte{0x5a}, slice)...)
+	}
+	unkTypes := []string{"PAR 2.0\x00Xyzzy", "NewsPostRecvSlic", "NewsPostMain\x00\x00\x00\x00", "NewsPostFileDesc", "NewsPostIFSC\x00\x00\x00\x00", "PAR 2.0\x00recvslic", "PAR 2.0\x00RecvSli\x00", "PAR 2.1\x00RecvSlic", "PAR 2.0\x00UniFileN", "PAR 2.0\x00CommASCI"}
+	var unkT [16]byte
+	copy(unkT[:], unkTypes[c.UnkType%len(unkTypes)])
+	unknownPkt := rpar2.Packet(unkSet, unkT, unkBody)
 
 	groups := [][]byte{set.CreatorPacket("refwriter"), set.MainPacket()}
 	for _, f := range set.Files {
